@@ -65,6 +65,8 @@ def main():
              'kind_free_text': 'exhaustive enumeration of copy/save points and continuation interleavings on two live machine objects, differential against replay'},
             {'name': 'storage', 'path': 'storage/storage.cpp + gen/custom.py (run_storage)', 'serves_properties': ['C20'],
              'kind_free_text': 'exhaustive depth-k enumeration of storage operation sequences per event type under clang ASan/UBSan/LSan with an object ledger'},
+            {'name': 'lockstep+tokenizer', 'path': 'gen/custom.py (run_frontends) + gen/emit_fe.py + puml/tokenizer.cpp + puml/gen_guards.py', 'serves_properties': ['C14'],
+             'kind_free_text': 'front-end lock-step exploration, exhaustive grammar enumeration through the real PlantUML tokenizer, compile-time guard tree batch'},
             {'name': 'explorer', 'path': 'harness/explore.hpp + gen/conform.py + gen/model.py', 'serves_properties': sorted(claimed),
              'kind_free_text': 'explicit-state bounded-exhaustive exploration of the real back-ends (BFS over API calls, DFS over environment answers, canonical state hashing) with reference-model conformance of every execution'},
         ],
